@@ -17,8 +17,10 @@ Everything runs in `Except Fault` over an explicit heap:
 * the parsers are the C16 models `N2k.Text.getStr2` / `N2k.Text.getVarStr` (checked destination buffers); a fault
   inside them is `Fault.parser`.
 * the environment `Env` supplies the clock, whether `tNMEA2000::SendMsg` succeeds, and the junk that
-  uninitialised memory holds (`LastMessageTime` is not initialised by the constructor, `malloc` blocks and the
-  local `tProductInformation` are not cleared); theorems hold for every `Env`.
+  uninitialised memory holds (`junkMem`: fresh `malloc` blocks and the local `tProductInformation` of
+  `HandleProductInformation` are not cleared; in the model nothing of it is ever read before it is written, up to
+  the terminators); theorems hold for every `Env`. `LastMessageTime` of a new entry is its creation time
+  (/repo 66df7f6, `C18:lastmsgtime-uninitialised`).
 * the ISO requests sent through `tNMEA2000::SendMsg` are appended to `out` as `(destination, requested PGN)`.
 
 The model transcribes the code AS FIXED in the verification worktree (known_findings.d/C18.json):
@@ -120,7 +122,6 @@ structure Device where
 structure Env where
   now : Nat
   canSend : Bool
-  junkTime : Nat
   junkMem : Nat → Nat
 
 /-- `tInternalDevice(_Name)` (`_Source` defaults to 255) -/
@@ -131,7 +132,7 @@ def Device.new (e : Env) (name : Nat) : Device :=
     txSize := 0, tx := none, rxSize := 0, rx := none,
     nNameRequested := 0, prodIRequested := 0, nProdIRequested := 0,
     confIRequested := 0, nConfIRequested := 0, pgnsRequested := 0, nPGNsRequested := 0,
-    lastMessageTime := e.junkTime }
+    lastMessageTime := millis32 e.now }
 
 def Device.setSource (d : Device) (src : Nat) : Device := { d with source := src }
 def Device.setName (d : Device) (n : Nat) : Device := { d with name := n }
